@@ -10,7 +10,7 @@ LEVEL = 'exploration'
 BUDGET = {'quick': 1500, 'thorough': 60000}
 CAP_S = {'quick': 150, 'thorough': 3000}
 RULE = ('case = (hint over user classes defined in the generated module, rendered as source text: the class itself, Optional / Union / '
-        'X | None / list / dict / tuple[..., ...] / type[...] / nested combinations; placement: module-level function, method of a class '
+        'X | None / list / dict / tuple[..., ...] / type[...] / nested combinations, and - the class being a user generic - subscripted inside the text ("Target[int]", alone or wrapped); placement: module-level function, method of a class '
         'nested 0-2 deep (decorated individually or through the class; referring to the class itself, to a class-level alias shadowing an '
         'outer one, or to a sibling class of the same nested body), closure 1-2 functions deep; spelling: string literal or '
         '"from __future__ import annotations"; order: the referenced class defined before the function, after it, or after the first '
@@ -24,9 +24,15 @@ ASSUMPTIONS = [
 ]
 
 WRAPS = ['bare', 'Optional', 'UnionInt', 'PipeNone', 'list', 'dict', 'tuplevar', 'type', 'listOptional', 'dictlist', 'tuplefix']
+# the referenced class is a user generic and is subscripted inside the annotation text ('Target[int]'); generated for the placements
+# whose class block the generator controls (module, closures, sibling of a nested class)
+SUBBED = {'selfsub': 'bare', 'selfsub-Optional': 'Optional', 'selfsub-list': 'list', 'selfsub-dict': 'dict'}
+SUBBED_PLACES = ('module', 'closure', 'closure2', 'nested-sibling', 'nested2-sibling')
 
 
 def ann_source(wrap, name):
+    if wrap in SUBBED:
+        return ann_source(SUBBED[wrap], '%s[int]' % name)
     return {'bare': name, 'Optional': 'Optional[%s]' % name, 'UnionInt': 'Union[%s, int]' % name, 'PipeNone': '%s | None' % name,
             'list': 'list[%s]' % name, 'dict': 'dict[str, %s]' % name, 'tuplevar': 'tuple[%s, ...]' % name, 'type': 'type[%s]' % name,
             'listOptional': 'list[Optional[%s]]' % name, 'dictlist': 'dict[str, list[%s]]' % name,
@@ -36,6 +42,7 @@ def ann_source(wrap, name):
 def probe_values(wrap, good, bad):
     """[(label, value)] - objects conforming and violating for the wrapper around class instances good / bad."""
     g, b = good, bad
+    wrap = SUBBED.get(wrap, wrap)
     table = {
         'bare': [g, b, 3, None], 'Optional': [g, None, b, 's'], 'UnionInt': [g, 5, b, 's', None], 'PipeNone': [g, None, b, 0],
         'list': [[g], [g, g], [b], [], 'x', [3]], 'dict': [{'k': g}, {'k': b}, {}, {1: g}, [g]],
@@ -46,7 +53,7 @@ def probe_values(wrap, good, bad):
     return list(enumerate(table[wrap]))
 
 
-HEADER = 'import typing\nfrom typing import Optional, Union\nfrom beartype import beartype\n'
+HEADER = 'import typing\nfrom typing import Optional, Union\nfrom beartype import beartype\nT = typing.TypeVar("T")\n'
 
 
 def render(case, spelling):
@@ -62,7 +69,8 @@ def render(case, spelling):
         src = ann_source(wrap, name)
         return repr(src) if spelling == 'str' else src
     classes_first = order == 'class-first' or spelling == 'eval'
-    cls_block = ['class Target:', '    pass', 'class Other:', '    pass', 'class Sub(Target):', '    pass']
+    gen = '(typing.Generic[T])' if wrap in SUBBED else ''
+    cls_block = ['class Target%s:' % gen, '    pass', 'class Other:', '    pass', 'class Sub(Target):', '    pass']
     if place == 'module':
         func = ['@beartype', 'def FUNC(p: %s) -> %s:' % (ann('Target'), ann('Target')), '    return p']
         if classes_first:
@@ -123,7 +131,7 @@ def render(case, spelling):
                 lines.append('@beartype')
             lines.append('%sclass %s:' % (ind, n))
             ind += '    '
-        slot = ['%sclass Slot:' % ind, '%s    pass' % ind]
+        slot = ['%sclass Slot%s:' % (ind, gen), '%s    pass' % ind]
         meth = ['%sdef meth(self, p: %s) -> %s:' % (ind, ann('Slot'), ann('Slot')), '%s    return p' % ind]
         lines += (slot + meth) if classes_first else (meth + slot)
         path = '.'.join(names)
@@ -134,7 +142,7 @@ def render(case, spelling):
         for i in range(depth):
             lines.append('%sdef make%d():' % (ind, i))
             ind += '    '
-        cls = ['%sclass Target:' % ind, '%s    pass' % ind, '%sclass Other:' % ind, '%s    pass' % ind,
+        cls = ['%sclass Target%s:' % (ind, gen), '%s    pass' % ind, '%sclass Other:' % ind, '%s    pass' % ind,
                '%sclass Sub(Target):' % ind, '%s    pass' % ind]
         func = ['%s@beartype' % ind, '%sdef inner(p: %s) -> %s:' % (ind, ann('Target'), ann('Target')), '%s    return p' % ind]
         lines += (cls + func) if classes_first else (func + cls)
@@ -142,7 +150,9 @@ def render(case, spelling):
         for i in reversed(range(depth - 1)):
             ind = ind[:-4]
             lines.append('%sreturn make%d()' % (ind, i + 1))
-        lines.append('FUNC, Target, Other, Sub = make0()')
+        # the classes stay local names of the enclosing function: exported under other module-level names (a module global of the
+        # same name would let a wrong module-scope lookup succeed by coincidence)
+        lines.append('FUNC, CLS_TARGET, CLS_OTHER, CLS_SUB = make0()')
     return '\n'.join(lines) + '\n'
 
 
@@ -170,8 +180,9 @@ def load(src, stop_before_classes=False):
 
 def verdicts(mod, wrap):
     out = []
-    good, bad = mod.Target(), mod.Other()
-    sub = mod.Sub()
+    good, bad = getattr(mod, 'CLS_TARGET', None) or mod.Target, getattr(mod, 'CLS_OTHER', None) or mod.Other
+    good, bad = good(), bad()
+    sub = (getattr(mod, 'CLS_SUB', None) or mod.Sub)()
     for i, v in probe_values(wrap, good, bad) + [(100 + i, v) for i, v in probe_values(wrap, sub, bad)[:2]]:
         try:
             r = mod.FUNC(v)
@@ -182,12 +193,19 @@ def verdicts(mod, wrap):
 
 
 def strategy(tier):
+    def fix(d):
+        if d['subbed'] is not None and d['place'] in SUBBED_PLACES:
+            d = dict(d, wrap=d['subbed'])
+        d = dict(d)
+        del d['subbed']
+        return d
     return st.fixed_dictionaries({
         'place': st.sampled_from(['module', 'module', 'method', 'method-classdeco', 'nested-method', 'nested2-method', 'closure', 'closure2',
                                   'nested-alias', 'nested2-alias', 'nested-sibling', 'nested2-sibling']),
         'wrap': st.sampled_from(WRAPS), 'order': st.sampled_from(['class-first', 'class-later', 'class-after-first-call']),
         'spelling': st.sampled_from(['str', 'future']),
-    })
+        'subbed': st.sampled_from([None, None] + sorted(SUBBED)),
+    }).map(fix)
 
 
 def run_case(case):
@@ -222,7 +240,7 @@ def run_case(case):
                 # an object that cannot be accepted or rejected without resolving the name
                 needle = {'bare': object(), 'Optional': object(), 'UnionInt': object(), 'PipeNone': object(), 'list': [object()],
                           'dict': {'k': object()}, 'tuplevar': (object(),), 'type': object, 'listOptional': [object()],
-                          'dictlist': {'k': [object()]}, 'tuplefix': (1, object())}[wrap]
+                          'dictlist': {'k': [object()]}, 'tuplefix': (1, object())}[SUBBED.get(wrap, wrap)]
                 mod.FUNC(needle)
                 fail('unresolved-name-accepted', '%s\ncall before the class exists returned normally' % src)
             except Exception as e:
